@@ -262,3 +262,8 @@ func VerifDecode(code string, stopAfter int) (ops []OpCode, args []int32) {
 	_, _ = RunFrame(frame)
 	return
 }
+
+// VNewCtx returns a minimal py.Context whose builtins hold the given names.
+func VNewCtx(builtins py.StringDict) py.Context {
+	return &vCtx{store: &py.ModuleStore{Builtins: &py.Module{Globals: builtins}}}
+}
